@@ -419,6 +419,49 @@ fn probe3(rng: &mut Rng) {
         o.fs(&probe.residuals());
         xs.push(x);
     }
+    // the Jacobian the solver is handed: row i is the derivative of residual i with the closest point held — for the
+    // distance to the closest POINT that is n·∂p/∂x with n the unit vector from the closest point to the moved point,
+    // for the distance to the closest PLANE it is ±(face normal)·∂p/∂x.  ∂p/∂x is taken by central differences of the
+    // moved points themselves (smooth in the parameters), so the expectation shares nothing with the row functions.
+    {
+        let x0: Vec<f64> = probe.params();
+        let jac = probe.jacobian();
+        let moved0: Vec<Point3> = probe.moved().to_vec();
+        let closest0: Vec<engeom::SurfacePoint3> = probe.closest().to_vec();
+        let h = 1e-6;
+        let mut dps: Vec<Vec<Vector3>> = vec![];
+        for k in 0..6 {
+            let mut xp = [0.0; 6];
+            let mut xm = [0.0; 6];
+            for j in 0..6 {
+                xp[j] = x0[j] + if j == k { h } else { 0.0 };
+                xm[j] = x0[j] - if j == k { h } else { 0.0 };
+            }
+            probe.set_params(xp);
+            let a: Vec<Point3> = probe.moved().to_vec();
+            probe.set_params(xm);
+            let b: Vec<Point3> = probe.moved().to_vec();
+            dps.push(a.iter().zip(&b).map(|(p, q)| (p - q) / (2.0 * h)).collect());
+        }
+        let mut xr = [0.0; 6];
+        xr.copy_from_slice(&x0);
+        probe.set_params(xr);
+        for i in 0..pts.len() {
+            let off = moved0[i] - closest0[i].point;
+            let n = if plane {
+                let s = closest0[i].normal.dot(&off);
+                if s.abs() < 1e-6 * size { continue; }
+                closest0[i].normal.into_inner() * s.signum()
+            } else {
+                if off.norm() < 1e-6 * size { continue; }
+                off.normalize()
+            };
+            for k in 0..6 {
+                let want = n.dot(&dps[k][i]);
+                v.require((jac[i][k] - want).abs() <= 1e-5 * (1.0 + size + want.abs()), if plane { "probe3.jacobian_row_is_the_plane_distance_derivative" } else { "probe3.jacobian_row_is_the_point_distance_derivative" }, || format!("point {i} parameter {k}: row {} expected {want}", jac[i][k]));
+            }
+        }
+    }
     let mut i = Tok::new();
     i.b(plane);
     mesh_tok(&mut i, &mesh);
